@@ -5,11 +5,11 @@ ROOT = os.path.dirname(os.path.dirname(os.path.abspath(__file__)))
 
 # id -> (technique, level text, level note, design ref)
 CHECKS = {
- "C01": ("end-state invariant monitor over the OS model derived from the simulated output stream + kanata's own idle predicates, after a bounded drain; grammar-generated non-latching configs x consistent histories incl. capacity-overflow stress families",
+ "C01": ("end-state invariant monitor over the OS model derived from the simulated output stream + kanata's own idle predicates, after a bounded drain; grammar-generated non-latching configs x consistent histories incl. capacity-overflow stress families; families for several waiting actions started by one key press and for queue eviction of a key's release",
          "Exploration: ~15k (quick) / 250k (thorough) configurations x 3-6 physically consistent histories each on the real Kanata object; after the last release the processing loop's control flow is emulated until kanata may block, and the OS model must be all-up, silent and idle within 4x(sum of configured numbers)+const ticks and stay so. Capacity families (>=32 queued events, 64 states, 9 concurrent tap-holds, 16 one-shots, 4 macros, chords-v2 bursts) are required to be reached (coverage floors).",
-         "Latching constructs excluded by construction; rpt-any, dynamic macros and tap-hold-except-keys inside virtual keys excluded (self-retriggering / never-timing-out by design); queue-overflowing bursts only on the plain grammar and the chords-v2 family (DESIGN.md section 6 lists the residual classes). Trusted: simulated output backend, OS model.",
+         "Latching constructs excluded by construction; rpt-any, dynamic macros and tap-hold-except-keys inside virtual keys excluded (self-retriggering / never-timing-out by design); queue-overflowing bursts on the plain grammar, the chords-v2 family and every second full-grammar configuration. Trusted: simulated output backend, OS model.",
          "DESIGN.md §4 C01"),
- "C03": ("crash oracle + diagnostic monitor (miette report must render; every label must be a valid range of the file it names) over (a) a seed-independent systematic hostile family: every list-action keyword x arity x argument kind, every defcfg option x boundary value, defvar reference graphs, token-wise mutation of one valid instance of every form, chord/dictionary files, lexical endings at EOF; (b) structure-aware and byte-level mutants of every shipped/doc/test config and of grammar-generated configs; both parser entry points; overflow-checked lane on a quarter of the cases, ASan lane in thorough",
+ "C03": ("crash oracle + diagnostic monitor (miette report must render; every label must be a valid range of the file it names) over (a) a seed-independent systematic hostile family: every list-action keyword x arity x argument kind, every defcfg option x boundary value, defvar reference graphs, token-wise mutation of one valid instance of every form, chord/dictionary files, lexical endings at EOF; (b) structure-aware and byte-level mutants of every shipped/doc/test config and of grammar-generated configs; both parser entry points; overflow-checked lane on a quarter of the cases, ASan lane in thorough; templates across files (position provenance), every top-level form repeated under each spelling, self-reproducing templates",
          "Exploration: ~97k (quick) / 2.4M (thorough) texts, 26k of them the systematic family that is identical for every seed. Held = no panic / stack overflow / watchdog hang / bad diagnostic on any generated text; accept/reject is not judged.",
          "Bounds: 64 KiB, depth 64; duplicate/splice not applied inside deftemplate forms (exponential by design); termination judged by a 20 s CPU watchdog per 12 texts.",
          "DESIGN.md §4 C03, §9.5"),
@@ -21,27 +21,27 @@ CHECKS = {
          "Exploration with exhaustive parts: 7 variants x H x tap-repress window x concurrent-tap-hold x rapid-event-delay, every schedule up to N events over {tap-hold key, b, c} with gaps {0,1,H-1,H,H+1} (9.7M quick / 157M thorough) against the model; every schedule up to 5 events over two tap-hold units + a plain key on 28 / 130 concurrent-tap-hold configurations (4.6M / 36M) against the invariants; 4.5k / 90k random cases.",
          "Boundary conventions are those of appendix A (calibrated on the tree, detect changes of them); with several tap-holds pending the relative order of their witnesses and exact decision ticks are not judged (guide silent).",
          "DESIGN.md §4 C05, appendix E.2"),
- "C06": ("per-tick equality with the one-shot reference model (appendix E.3, generalised to key/chord/layer and to two follow-up keys) + statement-level clauses read directly off the OS stream (first follower modified iff in time, press variants: no later press modified, release variants: nothing modified after the first follower release, held one-shot acts as the plain key) + stacked one-shot histories (17-40 taps)",
+ "C06": ("per-tick equality with the one-shot reference model (appendix E.3, generalised to key/chord/layer and to two follow-up keys) + statement-level clauses read directly off the OS stream (first follower modified iff in time, press variants: no later press modified, release variants: nothing modified after the first follower release, held one-shot acts as the plain key) + stacked one-shot histories (17-40 taps); one-shot table overfilled by re-presses (restack); non-key followers (mouse, unicode, layer, XX, macro ...)",
          "Exploration with exhaustive parts: 3 shapes x 4 end variants x T x rapid-event-delay, every schedule with gaps {0,1,T-1,T,T+1} up to N events (6.3M quick / 129M thorough); every press/release interleaving of two follow-up keys after a tapped or held one-shot (3.3M / 36M); 4.1M direct statement checks; 4k / 80k stacked histories crossing the 16-slot table.",
-         "Mixed-variant stacks judged only by the variant-independent invariants (the code uses the most recent variant, the guide says the first). Follow-up keys are plain key codes.",
+         "Mixed-variant stacks judged only by the variant-independent invariants (the code uses the most recent variant, the guide says the first). Non-key followers are judged in part 5 (macro followers with a leading delay only).",
          "DESIGN.md §4 C06, appendix E.3"),
- "C07": ("relational monitor on the real code: virtual-time reproduction of start_processing_loop run twice per history (L sleeps whenever can_block_update_idle_waiting allows, R ticks through every slept gap): no output inside a gap, identical timed traces; differences are attributed to the one listed known cause only by causal experiments on the real code; plus the real threaded start_processing_loop vs the stepper on time-insensitive configs (TSan lane in thorough)",
+ "C07": ("relational monitor on the real code: virtual-time reproduction of start_processing_loop run twice per history (L sleeps whenever can_block_update_idle_waiting allows, R ticks through every slept gap): no output inside a gap, identical timed traces; differences are attributed to the one listed known cause only by causal experiments on the real code; plus the real threaded start_processing_loop vs the stepper on time-insensitive configs (TSan lane in thorough); time-sensitive scenarios on the real thread after a real idle sleep; one-shot-pause and lt-key-timing families with causal attribution",
          "Exploration: 17 feature families (incl. zippychord re-enable / deadline countdowns) + the random non-latching grammar, ~9k (quick) / ~110k (thorough) histories with at least one blocked point, gaps from {0,1,2,3,7,T-1,T,T+1,1000,10001,70000}; 40 / 300 real-thread schedules. One cause on the current tree is a listed known finding (zippychord's 10000-tick forced reset never runs while sleeping), attributed only when the difference needs a stretch of more than 10000 slept ticks; six other causes found by this check were repaired in /repo.",
          "The emulator models one admissible schedule of the loop (integer ms, zero processing time). Real-loop cases judge order only; wall-clock trouble is inconclusive. Trusted: simulated output.",
          "DESIGN.md §4 C07, §9.3"),
- "C09": ("accounting oracle over the OS stream with private witness keys per chord and per-chord action counters (every press accounted once: own key or participant of exactly one fired chord), positive/negative scenario rules from the guide, v1 greedy-decomposition reference, release rule; every permutation of press and release order with gaps {0,1,T-1,T,T+1}, bystander keys, chords with different timeouts",
+ "C09": ("accounting oracle over the OS stream with private witness keys per chord and per-chord action counters (every press accounted once: own key or participant of exactly one fired chord), positive/negative scenario rules from the guide, v1 greedy-decomposition reference, release rule; every permutation of press and release order with gaps {0,1,T-1,T,T+1}, bystander keys, chords with different timeouts; delayed-start, held-over, overlapping-activations and flood families",
          "Exploration with an exhaustive part: 11 chord tables x {defchords, defchordsv2 all-released/first-release, base/disabled layer, counting}; all subsets of up to 3 keys complete (both tiers), 4-key subsets and chord+bystander sets sampled (quick) / complete (thorough), 5-key subsets sampled in thorough (~9M / ~50M scenarios); 1.2k / 6k random mixed histories; parser duplicate-set cases.",
          "Boundary conventions (v1 < T, v2 <= T) calibrated on the tree; scenarios the statement leaves open (v2 at exactly T with a press at T-1; v1 groups that start while earlier keys are still replayed; a still-possible chord with a shorter timeout expiring first) are judged by accounting only. Release slack = rapid-event-delay per fired chord + 2 x keys + 2 ticks.",
          "DESIGN.md §4 C09, §9.2"),
- "C15": ("relational monitor through the kanata_verif hooks (real handle_time_ticks / do_live_reload in virtual time, real files, real notification channel): failed reload vs inert-reload twin (identical traces, no ConfigFileReload); successful reload: deferral, notifications, first layer, nothing pressed/scrolling, exactly one reload per request, and equality with a fresh instance of the new file on the same continuation; sessions of 2-3 reload episodes; ASan lane in thorough",
+ "C15": ("relational monitor through the kanata_verif hooks (real handle_time_ticks / do_live_reload in virtual time, real files, real notification channel): failed reload vs inert-reload twin (identical traces, no ConfigFileReload); successful reload: deferral, notifications, first layer, nothing pressed/scrolling, exactly one reload per request, and equality with a fresh instance of the new file on the same continuation; sessions of 2-3 reload episodes; ASan lane in thorough; OS repeats after the reload, bounded progress of a pending request, key names across reloads, failed-first sessions",
          "Exploration: 16 pre-state scenarios x 5 request kinds x {valid, 6 fault kinds} over 1-3 real files with zippychord dictionaries, sequences, virtual keys, overrides and defcfg options varied between old and new file; 3k (quick) / 50k (thorough) cases incl. 640 / 9.6k multi-episode sessions. No known findings: the seven defects this check found (state surviving a reload) were repaired in /repo.",
          "One virtual ms = rewind last_tick by 1.3 ms + the real handle_time_ticks, re-run if it reports != 1 ms. Recorded dynamic macros / clipboard slots are kept on purpose and not exercised; allow-hardware-repeat / MAPPED_KEYS are read by the OS event loop and not observable here.",
          "DESIGN.md §4 C15, §3.6"),
- "C17": ("tick-exact reference model of the documented tap-dance rules (lazy and eager, incl. lists whose items are tap-holds) vs the OS stream of the real code, exhaustive event schedules over {dance key, other key}; invariants only where the statement leaves a choice",
+ "C17": ("tick-exact reference model of the documented tap-dance rules (lazy and eager, incl. lists whose items are tap-holds) vs the OS stream of the real code, exhaustive event schedules over {dance key, other key}; invariants only where the statement leaves a choice; two and three tap-dance keys per configuration",
          "Exploration with an exhaustive part: lists of 1-4 actions x lazy/eager x T in {3,60} x rapid-event-delay {0,5} plus 56 configurations with tap-hold items; every schedule of up to 6 (quick) / 7-8 (thorough) events with gaps {0,1,T-1,T,T+1} (10.6M / ~435M schedules), plus systematic 1-6 tap families with interrupting keys.",
          "A press exactly T after the previous one may be counted or start a new dance (both accepted, lost is not). More presses queued in one examination than list items, and lists with layer items: invariants only.",
          "DESIGN.md §4 C17"),
- "C18": ("reference model of press/release/tap/toggle compared after every operation and on the whole OS stream, identical across seven trigger paths (direct fake-key call as the TCP server makes it, on-press, on-release, legacy forms, macro item, defseq completion); tick-exact models for hold-for-duration (two durations on one key, activations while queued behind other events) and on-idle (idle count restarted by every input event, not counting while a hold-for-duration is pending) with the blocking predicate consulted every iteration; rapid-fire operation histories (gap 0/1/2, rolled keys, back-to-back direct calls)",
+ "C18": ("reference model of press/release/tap/toggle compared after every operation and on the whole OS stream, identical across seven trigger paths (direct fake-key call as the TCP server makes it, on-press, on-release, legacy forms, macro item, defseq completion); tick-exact models for hold-for-duration (two durations on one key, activations while queued behind other events) and on-idle (idle count restarted by every input event, not counting while a hold-for-duration is pending) with the blocking predicate consulted every iteration; rapid-fire operation histories (gap 0/1/2, rolled keys, back-to-back direct calls); several on-idle entries, several definition blocks, several hold-for-duration keys due in one tick",
          "Exhaustive operation histories up to N=5 (quick) / 7 (thorough) over every (virtual key, operation) pair on four virtual-key sets x seven paths (376k / ~10M histories); 257k / 4.5M timed scenarios at every distance around the durations; 78k / 1.25M queued hold-for-duration scenarios with durations 1-5; 239k / ~2M rapid-fire histories; 45k / ~400k on-idle + hold-for-duration scenarios.",
          "Operations are spaced so that each has taken effect before the next; macro virtual keys only tapped; keys that are not normal keys are held shorter than the idle duration (the guide does not say whether they keep kanata busy); no socket is opened for the TCP path.",
          "DESIGN.md §4 C18"),
@@ -49,39 +49,39 @@ CHECKS = {
          "Exploration: 11k (quick) / 324k (thorough) cases over all eight macro variants: single, cancelled at every step index, repeating, delayed triggers, 2-4 concurrent, 5-8 concurrent (overflow), a second key with a custom action at every tick offset, a physical modifier shared with the macro released at every offset. With at most four concurrent macros everything must hold; a fifth macro cutting the oldest short is the listed known finding (documented limit), leaving its keys down is not.",
          "Group modifiers (S-(...)) may be released in any order (the guide does not fix it; chords must release in reverse). Exact tick of a custom item is not judged when another custom event competes for the tick (documented 'may need delays'). Trusted: simulated output.",
          "DESIGN.md §4 C08"),
- "C10": ("reference evaluator over the generator's own expression tree vs the real parser + Switch::actions (all truth assignments), plus end-to-end scenarios through the stepper (switch and fork witness keys) incl. history entries older than the 16-bit age counter, switches evaluated while presses are still unprocessed (tap-hold / tap-dance / chord actions, bursts) and key tests while macros hold the keys",
+ "C10": ("reference evaluator over the generator's own expression tree vs the real parser + Switch::actions (all truth assignments), plus end-to-end scenarios through the stepper (switch and fork witness keys) incl. history entries older than the 16-bit age counter, switches evaluated while presses are still unprocessed (tap-hold / tap-dance / chord actions, bursts) and key tests while macros hold the keys; input tests on keys of 22 action kinds",
          "Exploration with exhaustive parts: every or/and/not forest up to size 7 (quick) / 8 (thorough) over three leaf families x all 8 assignments and all break/fallthrough patterns up to 5 cases (seed-independent); random depth-8 expressions with every item kind, thresholds on every key-timing compression edge; thousands of end-to-end scenarios incl. more than 8 firing cases; 2.4k / 6k systematic + 2k / 30k random scenarios with gaps of 65530..200000 ticks before key-timing is evaluated; 6k / 80k late-evaluation scenarios (14 kinds) and 600 / 8k macro-probe scenarios.",
          "lt = age <= q(t), gt = age > q(t) with the documented quantisation; ages are known only up to 65535 (saturating), the threshold 65535 on an older entry is not judged; zero-operand operators not generated.",
          "DESIGN.md §4 C10"),
- "C11": ("exhaustive stepper run over all 749 known codes in four mapping modes with repeats; name-table cross-check in every config position against pinned tables (cross-checked with linux/input-event-codes.h); native OsCode<->KeyCode value comparison; reserved no-op codes followed through every output path (41 scenario families x nop0-nop9 with an f24 control); defsrc identity enumerated over every option combination; coordinate (0,0) inspected and driven (v2 chords, macros, code 0) on 11 232 configurations with any-key wildcards; mapped-set oracle on random configs; Miri lane (thorough) executes the real transmutes for all 768 values",
+ "C11": ("exhaustive stepper run over all 749 known codes in four mapping modes with repeats; name-table cross-check in every config position against pinned tables (cross-checked with linux/input-event-codes.h); native OsCode<->KeyCode value comparison; reserved no-op codes followed through every output path (41 scenario families x nop0-nop9 with an f24 control); defsrc identity enumerated over every option combination; coordinate (0,0) inspected and driven (v2 chords, macros, code 0) on 11 232 configurations with any-key wildcards; mapped-set oracle on random configs; Miri lane (thorough) executes the real transmutes for all 768 values; built-in names redefined by deflocalkeys at every site; sequences of configurations read by one process",
          "Exhaustive over the finite code/name space (identity, names, discriminants); 20 768 (quick) / 62 304 (thorough) option x layer-shape configurations for the defsrc identity; 9k / 265k runs of the reserved-code families; 10k / 100k random configs for the mapped set.",
          "Expected exceptions are the measured ones of DESIGN.md §4 C11 (No and reserved codes silent, mouse pseudo keys as button/scroll events). arbitrary-code is not judged (the user asks for the code). The Miri lane is skipped (recorded, not failed) if cargo +nightly miri is unavailable.",
          "DESIGN.md §4 C11"),
- "C12": ("independent expansion of accepted defseq tables into typed orderings + prefix check (parser half); trace monitor with witness macros per virtual key over every ordering, every proper prefix + foreign key, T-1/T/T+1 timeouts, three input modes and three leaders (runtime half); modifier family (bare modifier keys as members, tapped / held, unrelated modifier held, sequence-backtrack-modcancel absent / yes / no) against a token model of the guide's modcancel rule",
+ "C12": ("independent expansion of accepted defseq tables into typed orderings + prefix check (parser half); trace monitor with witness macros per virtual key over every ordering, every proper prefix + foreign key, T-1/T/T+1 timeouts, three input modes and three leaders (runtime half); modifier family (bare modifier keys as members, tapped / held, unrelated modifier held, sequence-backtrack-modcancel absent / yes / no) against a token model of the guide's modcancel rule; OS repeats in sequence mode; virtual-key outputs that contain typed keys held through the firing",
          "Exploration: ~60k tables parsed and ~0.9M typing scenarios (quick), 8x that in thorough; 38 fixed tables identical for every seed. Four structural classes around O-(...) groups and one about right-hand modifier keys as members are listed known findings; every other class is live.",
          "Only accepted => prefix-free is judged; tables with chorded members run with sequence-backtrack-modcancel no; bare modifiers are not sequence members; always-on + hidden-suppressed excluded.",
          "DESIGN.md §4 C12"),
- "C13": ("executable set-based spec of the statement vs Overrides::override_keys on parser-built tables (all ordered key lists up to length 3/4), plus per-tick comparison through the stepper with override-release-on-activation yes/no, layers that permute the key universe (overrides on the output codes), OS repeats, follow-up events at gap 0/1/2 behind every activation, and spacing independence (every history re-run with events 4 ticks apart)",
+ "C13": ("executable set-based spec of the statement vs Overrides::override_keys on parser-built tables (all ordered key lists up to length 3/4), plus per-tick comparison through the stepper with override-release-on-activation yes/no, layers that permute the key universe (overrides on the output codes), OS repeats, follow-up events at gap 0/1/2 behind every activation, and spacing independence (every history re-run with events 4 ticks apart); loop driver mode (ticks only while kanata may not block) with clauses judged at every block",
          "Exhaustive key lists per table (1 886 / 19 046 lists) over 256 systematic + 6 000 random tables, and 12k / 100k random histories through the full pipeline incl. 80 systematic remapped-key cases. The order-sensitivity of the implementation is the listed known finding, classified by the modifiers-first re-ordering test; every other deviation is live.",
          "On an equal-modifier-count tie either entry is accepted (the statement does not decide). Layer mappings are injective.",
          "DESIGN.md §4 C13"),
- "C14": ("invariant monitor on the OS model at every injected Repeat (at most one output, only for a key that is down) + completeness under the stated precondition with private output alphabets per key, overrides whose inputs/outputs are keys the judged cells list (incl. 2-3-link chains, modifier-only swaps, outputs held by other keys), keys in 2-4 v2 chords with disabled layers",
+ "C14": ("invariant monitor on the OS model at every injected Repeat (at most one output, only for a key that is down) + completeness under the stated precondition with private output alphabets per key, overrides whose inputs/outputs are keys the judged cells list (incl. 2-3-link chains, modifier-only swaps, outputs held by other keys), keys in 2-4 v2 chords with disabled layers; layer-stack family with identity cells over a shared output pool",
          "Exploration: 20k (quick) / 300k (thorough) configs over every key-producing action form nested to depth 3 on 1-3 layers with overrides, held layers, switched base layer, three sequence modes; repeats injected at random points incl. pending decisions and sequence mode. Two structural classes are listed known findings (a key pressed while a hidden sequence was typed never reached the OS but is repeated afterwards - documented upstream as BUG(sequences); a modifier released by a visible-backspaced completion repeated in the same millisecond); seven other classes found by this check were repaired in /repo.",
          "override-release-on-activation yes not generated; completeness not judged for keys pressed during a pending decision; allow-hardware-repeat is an OS-layer filter and ignored.",
          "DESIGN.md §4 C14, §9.3"),
- "C16": ("metamorphic: fifteen semantically neutral rewrites (defalias, defvar atom/list/concat, variable chains in and against definition order, deftemplate with and without conditionals, templates with 2-4 parameters in every order whose arguments contain variables named like other parameters, nested conditionals, top-level forms in templates, include, platform wrap + decoy, deflayer->deflayermap) singly, as ordered pairs on the same item and composed; compare accept/reject, parsed artefacts and OS traces",
+ "C16": ("metamorphic: fifteen semantically neutral rewrites (defalias, defvar atom/list/concat, variable chains in and against definition order, deftemplate with and without conditionals, templates with 2-4 parameters in every order whose arguments contain variables named like other parameters, nested conditionals, top-level forms in templates, include, platform wrap + decoy, deflayer->deflayermap) singly, as ordered pairs on the same item and composed; compare accept/reject, parsed artefacts and OS traces; 17 rewrite kinds incl. template-forward and layermap-wildcard",
          "Exploration: 11k (quick) / 81k (thorough) generated configs, ~30k rewritten variants, 2 random histories each; the first 1350 cases apply each rewrite kind singly and every ordered pair, identical for every seed.",
          "Rewrite sites restricted to where the guide promises neutrality (not in defvirtualkeys, defchords, macros). rpt-any, dynamic macros, delays and chords v2 excluded from the profile. Forward variable references are judged because the code resolves at the use site and the guide promises substitution 'wherever the variable is used'.",
          "DESIGN.md §4 C16"),
- "C19": ("relational oracle: replay output vs a twin run that types the recorded portion again (order; with recorded delays also kanata-internal timing), plus invariants (nothing down after replay, recording stops at the limit, replay ends within a bound derived from the recorded lengths) and all 512 play graphs over three macros with marker keys counting how often each macro's content is replayed",
+ "C19": ("relational oracle: replay output vs a twin run that types the recorded portion again (order; with recorded delays also kanata-internal timing), plus invariants (nothing down after replay, recording stops at the limit, replay ends within a bound derived from the recorded lengths) and all 512 play graphs over three macros with marker keys counting how often each macro's content is replayed; play graphs, deferred play keys recorded last",
          "Exploration: 36k (quick) / 640k (thorough) recordings: keys held across start/stop, all stop modes, truncation, re-record, nested / self / cyclic play, size limit, both delay behaviours, time-sensitive mappings. A stop key processed after later events (pending tap-hold) is the listed known finding.",
          "Control keys pressed only when no decision is pending; after a limit stop any cut in a 4-event window is accepted (implementation-defined); where a physically tapped play key lands inside a running replay is judged by upper bounds only.",
          "DESIGN.md §4 C19"),
- "C20": ("text-buffer model of the receiving application replaying the OS stream (shift/altgr state, backspace) vs the dictionary expansion, for every permutation of each entry's keys; top-level chords after completed lines; longer chords after a partial release; deadline restarts",
+ "C20": ("text-buffer model of the receiving application replaying the OS stream (shift/altgr state, backspace) vs the dictionary expansion, for every permutation of each entry's keys; top-level chords after completed lines; longer chords after a partial release; deadline restarts; both shifts with case-exact text, follow-up after typing, soft reset inside a hold",
          "Exploration: 5k (quick) / 40k (thorough) generated dictionaries + 45 fixed ones, ~650k entry scenarios per quick run, with none/lsft/rsft/ralt held, three smart-space settings, tails, non-chord typing and too-slow chords. Four structural classes of follow-up chords are listed known findings, each limited to the outcome its defect predicts; the erase-counter defect this check found was repaired in /repo.",
          "output-character-mappings not generated; follow-ups whose proper subset is itself a top-level chord are skipped as ambiguous in the permutation family; with shift held comparison is case-insensitive.",
          "DESIGN.md §4 C20"),
- "C02": ("crash oracle (panic / abort / stack-overflow / watchdog monitor) over grammar-generated accepted configs x hostile histories; overflow-checked lane on every 4th case in quick; overflow-checked, ASan and valgrind-memcheck lanes in thorough",
+ "C02": ("crash oracle (panic / abort / stack-overflow / watchdog monitor) over grammar-generated accepted configs x hostile histories; overflow-checked lane on every 4th case in quick; overflow-checked, ASan and valgrind-memcheck lanes in thorough; press-flood and edge-code histories; switch key-matches nested to and beyond the evaluator's depth and opcode limits with short-circuit-aware histories",
          "Exploration: every action kind in every placement context systematically, then thousands of random full-grammar configurations, each driven by hostile and consistent histories on the real Kanata object in worker processes whose deaths and panics are attributed to the case. Held = no crash on anything generated; no claim about configurations or histories not generated.",
          "Trusted: the simulated-output backend; the harness' process supervision. Excluded: cmd, clipboard, sleeps > 2 ms. Bounded work per step only via a wall-clock watchdog.",
          "DESIGN.md §4 C02, §3.2"),
